@@ -136,8 +136,14 @@ CHECKS = {
 }
 
 # state at the end of the build (overrides the level notes above; see DESIGN.md §9.2 for the full table)
-UNITS = {"C01": "opshape, derived", "C02": "dsl", "C03": "xfrm", "C05": "pyeval", "C06": "nir", "C08": "pysim", "C10": "utils, shape",
-         "C11": "pysim", "C12": "fifo", "C15": "data", "C16": "crc"}
+import re as _re
+UNITS = {}
+for _pid in CHECKS:      # read from the property modules, so the manifest follows what the checks actually regenerate
+    _t = open(f"{V}/harness/props/{_pid.lower()}.py").read()
+    _m = _re.search(r"^TRANSLATOR_UNITS\s*=\s*\[(.*?)\]", _t, flags=_re.M)
+    _u = _re.findall(r"\"([a-z_0-9]+)\"", _m.group(1)) if _m else []
+    if _u:
+        UNITS[_pid] = ", ".join(_u)
 NOTE_NOW = {
  "C01": "exec() of generated code and the engine are validated by the differential run only; CPython slice.indices/range are read by hand-written definitions compared with the interpreter.",
  "C02": "Targets are linear (known finding F9, exact filter); FSM lowering, Case pattern normalisation and the settle loop are in the model; which domains get a Switch and Module's context-manager bookkeeping are validated only; syntactic acyclicity => termination ranking not proved.",
